@@ -404,6 +404,14 @@ def run(chk):
     for v in chk.violations[before:]:
         v["key"] += "@K4"
         v["what"] = "[dimension checking compiled out] " + v["what"]
+    # ... and in the release profile (K6): a kind check downgraded to debug_assert! disappears there
+    p6 = load_config("K6")
+    chk.configs.append("K6")
+    before = len(chk.violations)
+    check_arith(chk, p6, S.Sim(p6), "@K6")
+    for v in chk.violations[before:]:
+        v["key"] += "@K6"
+        v["what"] = "[release profile] " + v["what"]
     # "a wrongly dimensioned argument is rejected" also in the release profile with dim_check_release (K7)
     p7 = load_config("K7")
     chk.configs.append("K7")
